@@ -136,6 +136,17 @@ func strUniverse(u int) []string {
 	return r
 }
 
+// jsonStrUniverse: strings that need escaping in JSON (quote, backslash forming a valid
+// escape, control character, HTML-sensitive, non-ASCII) — used as elements, keys and values
+// by the JSON jobs.
+func jsonStrUniverse(u int) []string {
+	all := []string{"a", "b\"q", "c\\t", "d\ne", "<e&>", "\u00e9f", "g\\", "h\th"}
+	if u > len(all) {
+		u = len(all)
+	}
+	return all[:u]
+}
+
 func strCmp(name string) func(a, b string) int {
 	switch name {
 	case "rev":
